@@ -559,6 +559,25 @@ class World:
         window = self.zk.oplog[pos:]
         if any(e[2] == 'set' and e[1] == sid for e in window):
             self.probes['own_node_updated'] += 1
+        # clause (3) also while an old container's request is (re)evaluated:
+        # whatever that handling removes must not be the acknowledged
+        # registration of a newer container of the same instance
+        for _seq, dsid, dop, dpath, owner_before, _x in window:
+            if dop != 'delete' or dsid != sid:
+                continue
+            for other in self.conts.values():
+                if other.inst == cont.inst and other.rank > cont.rank and \
+                        self._valid(other) and \
+                        owner_before == other.acked_sid and \
+                        any(p == dpath for _k, p in other.paths):
+                    self.fail(
+                        'C17:newer-container-unregistered:in-%s' % how,
+                        'handling the %s of the request of container %s '
+                        '(#%d) on %s deleted %s, registered and acknowledged '
+                        'for the newer container %s (#%d) of %s on %s' % (
+                            how, cont.rsrc_id, cont.seq, host.name, dpath,
+                            other.rsrc_id, other.seq, other.inst, other.host))
+                    return res
         if res:
             was_waiting = cont.waiting
             newly = cont.acked_sid != sid
@@ -1173,6 +1192,7 @@ OP_WEIGHTS = [
     ('restart_same_host', 2), ('ep_crash', 1), ('ep_reap', 1),
     ('rt_restart_same_host', 2), ('fence_old_host', 3),
     ('call_level_race', 3), ('delete_reply_lost', 3), ('ping_pong', 3),
+    ('failed_reregistration', 3),
 ]
 
 
@@ -1581,6 +1601,94 @@ class Generator:
             dict(wake_b), dict(svc_b),
             {'op': 'settle'}])
         return {'op': 'delete', 'seq': old.seq}
+
+    def g_failed_reregistration(self, world):
+        """Two containers of one instance have requests on one host (the old
+        one awaits clean-up, the newer one is registered); the old request is
+        evaluated again - replay by a service that was killed and re-attaches
+        its session (zkid file), or the retry after a wait - and the reply of
+        one of its ZooKeeper writes is lost."""
+        rng = self.rng
+        waiting = [c for c in world.conts.values()
+                   if c.kind == 'svc' and c.present and c.waiting and
+                   world.hosts[c.host].proc is not None and
+                   not world._dir_pending(world.hosts[c.host].proc)]
+        olds = [c for c in world.conts.values()
+                if c.kind == 'svc' and c.present and world._valid(c) and
+                world.hosts[c.host].proc is not None and
+                not world._dir_pending(world.hosts[c.host].proc)]
+        loss = {'op': 'conn_loss', 'applied': rng.random() < 0.5}
+        at = rng.choice([1, 1, 1, 2, 3, 4, 5])
+        if waiting and rng.random() < 0.5:
+            # retry path: the old request owns /running and waits for a
+            # foreign endpoint/identity; the newer one does not need them
+            old = rng.choice(waiting)
+            proc = world.hosts[old.host].proc
+            blocked = world._blockers(old, proc.sid)
+            owners = sorted({world._owner_host(world.zk.nodes[p].owner)
+                             for p in blocked} - {None, old.host})
+            if blocked and old.paths[0][1] not in blocked and owners:
+                new = self._request(world, old.inst, host=old.host)
+                new['eps'] = [e for e in new['eps'] if not any(
+                    p.endswith(':%s:%s' % (e[3], e[0])) for p in blocked)]
+                if any('/identity-groups/' in p for p in blocked):
+                    new['group'] = None
+                    new['identity'] = None
+                self.follow.extend(
+                    [{'op': 'svc', 'host': old.host, 'n': 5}] +
+                    [{'op': 'expire', 'host': o} for o in owners] +
+                    [{'op': 'deliver', 'host': old.host, 'n': 9},
+                     {'op': 'svc', 'host': old.host, 'n': 5,
+                      'during': [[at, [loss]]]}])
+                return new
+        cfg = self.config
+        two_ids = [i for i in cfg['instances']
+                   if cfg['specs'][i]['group'] and
+                   len(cfg['specs'][i]['identities']) > 1]
+        idle = [n for n, h in sorted(world.hosts.items())
+                if h.proc is not None and not world._dir_pending(h.proc)]
+        if two_ids and len(cfg['instances']) > 1 and len(idle) > 1 and \
+                rng.random() < 0.6:
+            # retry path built from scratch: another instance on another host
+            # holds identity 0 of the shared group
+            inst = rng.choice(two_ids)
+            other_inst = rng.choice([i for i in cfg['instances']
+                                     if i != inst])
+            here, there = rng.sample(idle, 2)
+            free = [c for c in world.conts.values()
+                    if c.present and c.inst in (inst, other_inst)]
+            if not free:
+                holder = self._request(world, other_inst, host=there)
+                holder['identity'] = 0
+                old_req = self._request(world, inst, host=here)
+                old_req['identity'] = 0
+                new_req = self._request(world, inst, host=here)
+                new_req['identity'] = cfg['specs'][inst]['identities'][1]
+                self.follow.extend([
+                    {'op': 'svc', 'host': there, 'n': 5},
+                    old_req, {'op': 'svc', 'host': here, 'n': 5},
+                    new_req, {'op': 'svc', 'host': here, 'n': 5},
+                    {'op': 'delete', 'seq': holder['seq']},
+                    {'op': 'svc', 'host': there, 'n': 5},
+                    {'op': 'deliver', 'host': here, 'n': 9},
+                    {'op': 'svc', 'host': here, 'n': 5,
+                     'during': [[at, [loss]]]}])
+                return holder
+        if not olds:
+            return None
+        old = rng.choice(olds)
+        new = self._request(world, old.inst, host=old.host)
+        ids = [c.rsrc_id for c in world.conts.values()
+               if c.host == old.host and c.kind == 'svc' and c.present]
+        ids.append(rsrc_id_of(new['inst'], new['seq']))
+        if rng.random() < 0.3:
+            self.fsorder.shuffle(ids)
+        self.follow.extend([
+            {'op': 'svc', 'host': old.host, 'n': 5},
+            {'op': 'kill', 'host': old.host},
+            {'op': 'restart', 'host': old.host, 'order': ids,
+             'during': [[at, [loss]]]}])
+        return new
 
     def g_restart_same_host(self, world):
         """The instance restarts on the same host: the new container
